@@ -527,6 +527,69 @@ fn part2(k: usize, merge: bool, max_rows: usize, deadline: &Deadline) -> Stats {
 // ---------------------------------------------------------------------------------------
 // part 3: static vs dynamic
 
+/// part 3b: programs that read no outputs but fail at run time somewhere: the static iterator
+/// yields, item by item, what a dynamic run yields, also after an error item
+fn part3b(deadline: &Deadline) -> Stats {
+    let sigs = vec![Sig::inp("A", 8, 0), Sig::inp("B", 8, 1), Sig::out("Q", 8)];
+    let l = |n: i64| Entry::Lit(n, Radix::Dec);
+    let i = || name("i");
+    let atoms = vec![
+        Stmt::Row(vec![l(1), l(2), Entry::X]),
+        Stmt::Row(vec![Entry::Paren(bin(BinOp::Div, lit(6), bin(BinOp::Sub, i(), lit(1)))), Entry::Paren(i()), l(3)]),
+        Stmt::Row(vec![Entry::Paren(random(lit(1))), l(0), Entry::X]),
+        Stmt::Row(vec![Entry::X, Entry::Paren(bin(BinOp::Rem, lit(7), i())), Entry::Z]),
+        Stmt::Let("i".into(), bin(BinOp::Add, i(), lit(1))),
+        Stmt::Let("k".into(), bin(BinOp::Div, lit(1), lit(0))),
+        Stmt::Repeat(lit(2), vec![Entry::Paren(bin(BinOp::Div, lit(4), name("n"))), l(0), Entry::X]),
+    ];
+    let blocks = vec![Block::Loop("i".into(), lit(3)), Block::Loop("j".into(), bin(BinOp::Div, lit(2), lit(0)))];
+    let mut total = Stats::default();
+    for k in 1..=3 {
+        let sp = ForestSpace::new(atoms.clone(), blocks.clone(), 2, k);
+        let st = par_range(&format!("part 3b: programs with {k} statements that fail at run time: static vs dynamic item sequences, carrying on after error items"), sp.count(k), deadline, |idx, st| {
+            let mut body = vec![Stmt::Let("i".into(), lit(0))];
+            body.extend(sp.unrank(k, idx));
+            let prog = Program { header: vec!["A".into(), "B".into(), "Q".into()], body };
+            let text = text(&prog);
+            let Ok(tc) = load(&text, &sigs, DEFAULT_BUDGET) else { return };
+            st.evals += 1;
+            let StaticObs::Rows(rows, _) = run_static_opt(&tc, 30, 1, 20_000, true) else { return };
+            let script = vec![Step::Ans(vec![("Q".into(), V::Num(5))])];
+            let mut opts = RunOpts::new(31);
+            opts.repeat_last = true;
+            opts.continue_after_error = true;
+            opts.budget = 20_000;
+            let o = run_loaded(&tc, &sigs, true, &script, &opts);
+            let dynrows: Vec<Result<StaticRow, String>> = o
+                .items
+                .iter()
+                .filter(|i| **i != ObsItem::End)
+                .map(|i| match i {
+                    ObsItem::Row(r) => Ok(StaticRow { line: r.line, inputs: r.inputs.clone(), expected: r.outputs.iter().map(|x| (x.name.clone(), x.expected)).collect() }),
+                    other => Err(other.brief()),
+                })
+                .collect();
+            if rows.iter().any(|r| r.is_err()) {
+                st.nontrivial += 1;
+                st.witness("static_iteration_past_an_error_item");
+            }
+            // an error that repeats for ever (a failing while condition) fills both to the cap
+            let n = rows.len().min(dynrows.len()).min(30);
+            let same = (rows.len() == dynrows.len() || n == 30) && rows.iter().zip(dynrows.iter()).take(n).all(|(s, d)| match (s, d) {
+                (Ok(s), Ok(d)) => s == d,
+                (Err(_), Err(_)) => true,
+                _ => false,
+            });
+            if !same {
+                let sum = format!("{text}static iteration yields {} items, a dynamic run {}:\n static  {:?}\n dynamic {:?}", rows.len(), dynrows.len(), rows.iter().map(|r| r.as_ref().map(|r| r.line).map_err(|_| "error")).collect::<Vec<_>>(), dynrows.iter().map(|r| r.as_ref().map(|r| r.line).map_err(|_| "error")).collect::<Vec<_>>());
+                st.violation("static items differ from a dynamic run after an error item", idx, sum, || dyn_replay(&text, &sigs, true, &script, &opts, rows.iter().map(|r| format!("{r:?}")).collect(), &o, "static != dynamic"));
+            }
+        });
+        total.merge(st);
+    }
+    total
+}
+
 fn part3(tier: Tier, deadline: &Deadline) -> Stats {
     let lists = c01::signal_lists();
     let sigs = lists[0].clone();
@@ -655,6 +718,7 @@ pub fn run(tier: Tier, seed: u64) -> i32 {
         total.transitions = t;
     }
     total.merge(part3(tier, &deadline));
+    total.merge(part3b(&deadline));
     total.sample(|| json!({"part": 2, "model": "k iterators over one TestCase, actions Step(j) / Restart(j), state = position vector; invariant: item p of iterator j equals item p of a solo run, vars() likewise"}));
     let meta = CheckMeta {
         id: "C15",
@@ -666,7 +730,7 @@ pub fn run(tier: Tier, seed: u64) -> i32 {
             "interleaving states are merged on the position vector; the thorough tier re-explores without merging".into(),
             "values drawn by random are outside the property; the seed is pinned through hook H1".into(),
         ],
-        required_witnesses: vec!["non_identity_hash_map_order", "binding_error_compared", "real_hash_map_order_varies_under_the_seam", "non_identity_order_in_the_dig_loader", "step_while_another_iterator_is_mid_run", "iterator_restarted_mid_run", "program_reading_outputs_is_not_static", "static_program_compared_with_dynamic_runs"],
+        required_witnesses: vec!["non_identity_hash_map_order", "binding_error_compared", "real_hash_map_order_varies_under_the_seam", "non_identity_order_in_the_dig_loader", "step_while_another_iterator_is_mid_run", "iterator_restarted_mid_run", "program_reading_outputs_is_not_static", "static_program_compared_with_dynamic_runs", "static_iteration_past_an_error_item"],
         exhaustive_note: "all orders, all interleavings (as states and schedule edges), all programs within the bounds".into(),
         e1: true,
     };
